@@ -244,6 +244,9 @@ func oneSeed(t *testing.T, scn Scenario, seed uint64, index int, prop string, ra
 	}
 	rr := &RunResult{Seed: seed, Index: index, Scenario: scn.Name(), Steps: sim.Step(), WallUs: time.Since(t0).Microseconds(),
 		Hash: hex(sim.Hash()), SchedHash: hex(sim.SchedHash()), Probes: sim.Probes}
+	if n := sim.SpinParksCount(); n > 0 {
+		sim.Probes["a mutex was not free: the goroutine waited at a yield point (lock.spin)"] += int(n)
+	}
 	if out != nil {
 		rr.SimNs = int64(out.SimTime)
 		rr.Evals = out.Evals
